@@ -305,9 +305,9 @@ class OvfProfile(StoreProfile):
         nvdim = 3 if version == 1 else rng.choice([1, 3, 3, 2])
         labels, vdims = None, None
         if version == 2 and nvdim > 1:
-            base = rng.choice(["Magnetization", "m", "field"])
+            base = rng.choice(["Magnetization", "m", "field", "{Total field"])
             comps = "xyz"[:nvdim]
-            labels, vdims = [f"{base}_{c}" for c in comps], list(comps)
+            labels, vdims = [f"{base}_{c}" + ("}" if base.startswith("{") else "") for c in comps], list(comps)
         st.ncopy += 1
         val = {"kind": "idx", "step": rng.choice([1.0, 0.25])} if rng.random() < 0.5 else {"kind": "wide", "seed": rng.randrange(2**31), "emax": 30}
         return {
